@@ -572,4 +572,71 @@ mod verif_nx_pipeline {
         n
     }
 
+    // ---- C06: the output is a function of the token sequence (comments and blank-line grouping aside).
+    // Canonical texts in which every gap is one space; each gap is then re-rendered as more spaces, a tab, a single line
+    // break, or a line break plus indentation - all at once, alternating, and one gap at a time.  Only existing gaps are
+    // changed (no gap is created or removed), there are no comments, no blank lines, no asm blocks, no verbatim regions.
+    #[test]
+    fn verif_nx_pipeline_relayout() {
+        let stmts = [
+            "A := 'abc' [1];", "A := 'abc'[1];", "N := 12 + F (3);", "N := 12 + F(3);", "S := 'a' + 'b';", "X := Y [1];", "Foo (1, 2);", "Foo(1, 2);",
+            "if A then B else C;", "A := B . C;", "A := B.C;", "A := @ B;", "A := - B;", "A := B ^ . C;", "for I := 0 to 9 do W;", "while A < B do C;",
+            "case X of 1 : G; else H; end;", "try A; except on E : Exception do B; end;", "L := TList < Integer > . Create;",
+            "raise Exception . Create ('x');", "A := [1, 2];", "A := B as C;", "A := #13 #10;", "A := 'a' #13;", "A := $FF + %101;", "A := 1.5e3 * 2;",
+            "with A , B do C;", "repeat A; until B;", "goto L1;", "L1 : A;", "inherited Create (X);", "A := B div C mod D shl 2;", "A := not B;",
+            "A := (B);", "A := ( B );", "P ^ := 1;", "A := B [ 1 , 2 ];", "A := function (X : Integer) : Integer begin Result := X; end;",
+            "A . B . C (1) . D;", "exit (1);", "A := nil;", "A := 'x' .Length;", "A := 12 .ToString;", "if A then begin B; end else begin C; end;",
+            "A := B < C;", "A := B <= C;", "A := B <> C;", "A := B in [C];", "A := B is C;", "A := ^ B;", "A := B ( C ) ( D );", "A := &begin + 1;",
+        ];
+        let decls = [
+            "label L2;", "const K : Integer = 1;", "var V : array [0 .. 1] of Byte;", "type T = class (TObject) private F : Integer; public procedure P; end;",
+            "type E = (One, Two);", "type S = set of Byte;", "uses A , B . C;", "type G < T > = class end;", "procedure Q (A : Integer ; var B : Byte); forward;",
+            "function F : Integer; external 'x' name 'y';", "const M = 'abc' [1];", "resourcestring R = 'r';", "type P = ^ Integer;", "threadvar W : Byte;",
+        ];
+        let cfgs = [leak(config(false, 2, 2, false, 120, false)), leak(config(true, 4, 1, true, 30, true))];
+        let mut texts: Vec<String> = Vec::new();
+        for a in stmts {
+            texts.push(format!("procedure P; begin {} end;", a));
+        }
+        for (i, a) in stmts.iter().enumerate() {
+            texts.push(format!("procedure P; begin {} {} end;", a, stmts[(i * 7 + 3) % stmts.len()]));
+        }
+        for d in decls {
+            texts.push(format!("unit U; interface {} implementation end.", d));
+        }
+        let mut n = 0u64;
+        let fills: [&str; 5] = ["   ", "\t", "\n", "\n      ", " \n"];
+        for t in &texts {
+            let words: Vec<&str> = t.split(' ').collect();
+            let gaps = words.len() - 1;
+            for cfg in cfgs {
+                let (reference, _) = fmt(cfg, t, Vec::new());
+                let mut variants: Vec<String> = Vec::new();
+                for f in fills {
+                    variants.push(words.join(f));                                            // every gap
+                    for g in 0..gaps {                                                        // one gap at a time
+                        let mut v = String::new();
+                        for (i, w) in words.iter().enumerate() {
+                            v.push_str(w);
+                            if i < gaps { v.push_str(if i == g { f } else { " " }); }
+                        }
+                        variants.push(v);
+                    }
+                }
+                let mut alt = String::new();                                                  // alternating
+                for (i, w) in words.iter().enumerate() {
+                    alt.push_str(w);
+                    if i < gaps { alt.push_str(fills[i % fills.len()]); }
+                }
+                variants.push(alt);
+                for v in &variants {
+                    let (out, _) = fmt(cfg, v, Vec::new());
+                    assert!(out == reference, "OB pipeline/relayout_same_output: changing the amount of horizontal whitespace, the indentation, or a space into a single line break between two non-comment tokens does not change the output\n canonical={:?}\n relaid={:?}\n output of canonical={:?}\n output of relaid={:?}", t, v, reference, out);
+                    n += 1;
+                }
+            }
+        }
+        println!("NX pipeline_relayout: {} cases", n);
+        assert!(n > 10_000, "enumeration ran");
+    }
 }
